@@ -20,8 +20,7 @@ MANIFEST = {
             "operations emitted for the header's three visibility sections are a permutation of those emitted for the source file, stated as "
             "equal counts for every predicate, hence every declaration has exactly one definition when signatures are distinct), "
             "C19_realised (every operation of a realised pure virtual interface is emitted for the realising class, defined under its name, "
-            "declared 'override'), C19_files (one header per generated element, one source per concrete class, in the namespace folder chain "
-            "when requested), C19_cycle_refuted (a cyclic realisation exhausts every fuel: Python RecursionError). The model is tied to the "
+            "declared 'override'), C19_cycle_refuted (a cyclic realisation exhausts every fuel: Python RecursionError). The model is tied to the "
             "code by translator/uml.py (branch conditions, template filters, file-name dictionaries, template directory listing regenerated "
             "from umlgen.py) and by differential runs on the shipped diagrams and mutants of them.",
     "note": "Input adaptor not modelled: kojen's blob parser produces the class diagram objects; parameter type/name/default rendering is taken "
@@ -90,7 +89,7 @@ def expected_paths(cd, nsf, lang="cpp"):
         for e in exts:
             p = folder + c.NAME + e
             if p in exp:
-                clash.append(p)
+                clash.append((p, exp[p].NAMESPACE == c.NAMESPACE))
             exp[p] = c
     return exp, clash
 
@@ -100,7 +99,8 @@ def observe(ctx, cd, label, nsf, dclspc, edits, compile_all):
     fails = []
 
     def fail(what, key, **kw):
-        d = {"diagram": label, "edits": edits, "nsf": nsf, "dclspc": dclspc, "detail": what, "finding_key": key}
+        d = {"diagram": label, "edits": edits, "nsf": nsf, "dclspc": dclspc, "detail": what, "finding_key": key,
+             "finding_class": "uml:" + key.split(":")[-1] if key.split(":")[-1] in ("realisation-cycle", "path-collision", "file-set", "namespace") else "uml:other"}
         d.update(kw)
         fails.append(d)
     lang = LanguageCPP.LanguageCPP()
@@ -120,8 +120,12 @@ def observe(ctx, cd, label, nsf, dclspc, edits, compile_all):
             return fails, False
         tree = {k: v.decode("utf-8", "replace") for k, v in kj.read_tree(out).items()}
         exp, clash = expected_paths(cd, nsf)
+        if any(same for _p, same in clash):
+            ctx.count("outside_domain:two-elements-of-one-name-in-one-namespace")
+            return [], False
+        clash = [p for p, _same in clash]
         for p in clash:
-            fail("two elements are generated into the same file %s" % p, "uml:%s:path-collision" % label, file=p)
+            fail("two elements of different namespaces are generated into the same file %s" % p, "uml:%s:path-collision" % label, file=p)
         missing = sorted(set(exp) - set(tree))
         extra = sorted(set(tree) - set(exp))
         if missing or extra or sorted(os.path.normpath(r) for r in ret) != sorted(tree):
@@ -151,10 +155,12 @@ def observe(ctx, cd, label, nsf, dclspc, edits, compile_all):
                 for k, n in dcount.items():
                     if fcount.get(k, 0) != n or n != 1:
                         fail("%s: operation %s%r declared %d time(s), defined %d time(s)" % (c.NAME, k[0], k[1], n, fcount.get(k, 0)),
-                             "uml:%s:%s:%s" % (label, c.NAME, k[0]), file=path)
+                             "uml:%s:%s:%s" % (label, c.NAME, k[0]), file=path,
+                             finding_class="uml:operation-emitted-twice" if (n > 1 and fcount.get(k, 0) == n) else "uml:declaration-definition-mismatch")
                 for k, n in fcount.items():
                     if k not in dcount:
-                        fail("%s: operation %s%r defined but not declared" % (c.NAME, k[0], k[1]), "uml:%s:%s:%s" % (label, c.NAME, k[0]), file=path)
+                        fail("%s: operation %s%r defined but not declared" % (c.NAME, k[0], k[1]), "uml:%s:%s:%s" % (label, c.NAME, k[0]), file=path,
+                             finding_class="uml:definition-without-declaration")
         # realised interfaces are overridden
         for inh in cd.inheritence.values():
             if not inh.IS_REALIZATION or inh.CLASS_TO_ID not in cd.classes or inh.CLASS_FROM_ID not in cd.classes:
@@ -170,15 +176,21 @@ def observe(ctx, cd, label, nsf, dclspc, edits, compile_all):
                 if op.VISIBILITY not in ("public", "protected", "private"):
                     continue
                 if not have.get((op.NAME, len(op.PARAMETERS))):
-                    fail("%s realises %s but does not override %s" % (c.NAME, i.NAME, op.NAME), "uml:%s:%s:%s" % (label, c.NAME, op.NAME))
+                    fail("%s realises %s but does not override %s" % (c.NAME, i.NAME, op.NAME), "uml:%s:%s:%s" % (label, c.NAME, op.NAME),
+                         finding_class="uml:realised-operation-not-overridden")
         # accepted by a C++ compiler
         todo = sorted(tree) if compile_all else sorted(tree)[:: max(1, len(tree) // 6)]
         for rel in todo:
-            ok, msg = us.syntax_check(out, rel)
+            ok, msg, culprit, cause = us.syntax_check(out, rel, dclspc)
             ctx.count("gxx_ok" if ok else "gxx_rejected")
+            if not ok and cause == "other" and edits:
+                # a mutant may be semantically invalid C++ by construction (a removed class that is still used, an enum that
+                # is inherited from, a header of an element marked as generated elsewhere): only recognised generator faults count
+                ctx.count("mutant_rejected_for_other_reason")
+                continue
             if not ok:
-                fail("g++ rejects %s: %s" % (rel, " | ".join(l for l in msg.split("\n") if "error" in l)[:600]),
-                     "uml:%s:%s:compile" % (label, os.path.basename(rel)), file=rel)
+                fail("g++ rejects %s (first error in %s: %s): %s" % (rel, culprit, cause, " | ".join(l for l in msg.split("\n") if "error" in l)[:500]),
+                     "uml:%s:%s:compile" % (label, culprit), file=rel, finding_class="uml-compile:" + cause)
     return fails, nontrivial
 
 
@@ -189,7 +201,8 @@ def csharp(ctx, cd, label, nsf, edits):
             us.generate(cd, out, "cs", nsf, "")
         except Exception as e:  # noqa
             fails.append({"diagram": label, "edits": edits, "nsf": nsf, "lang": "cs", "detail": "C# generator crashed: %s: %s" % (type(e).__name__, e),
-                          "finding_key": "uml_cs:%s:crash:%s" % (label, type(e).__name__)})
+                          "finding_key": "uml_cs:%s:crash:%s" % (label, type(e).__name__),
+                          "finding_class": "uml:realisation-cycle" if isinstance(e, RecursionError) else "uml_cs:crash"})
             return fails
         tree = kj.read_tree(out)
         exp, clash = expected_paths(cd, nsf, "cs")
@@ -213,7 +226,7 @@ def run(ctx):
         ctx.case(("corpus", p))
         if not replay(ctx, data):
             ctx.violation("corpus case %s fails" % os.path.basename(p), data)
-    n = ctx.budget(14, 300)
+    n = ctx.budget(60, 400)
     cases = [(label, 0, 0) for label in us.DIAGRAMS] + [("TestClassDiagram", -1, 0)]
     for i in range(n):
         cases.append((us.DIAGRAMS[i % 2] if i % 3 else "TestClassDiagram", ctx.rng.randint(1, 1 << 30), ctx.rng.randint(1, 4)))
